@@ -16,9 +16,7 @@ import (
 	"github.com/paulmach/orb/geo"
 	"github.com/paulmach/orb/geojson"
 	"github.com/paulmach/orb/maptile"
-	"github.com/paulmach/orb/maptile/tilecover"
 	"github.com/paulmach/orb/planar"
-	"github.com/paulmach/orb/project"
 	"github.com/paulmach/orb/simplify"
 )
 
@@ -138,29 +136,33 @@ func simpEntry(name string, mk func() orb.Simplifier) entry {
 }
 
 // clipTyped: the raw result of the kind's own clip function
-func clipTyped(g orb.Geometry) string {
-	switch v := g.(type) {
-	case orb.Point:
-		return gsn(v) // no function of its own: kept iff the pre-test passes
-	case orb.MultiPoint:
-		return gsn(clip.MultiPoint(c20Box, v))
-	case orb.LineString:
-		return gsn(clip.LineString(c20Box, v))
-	case orb.MultiLineString:
-		return gsn(clip.MultiLineString(c20Box, v))
-	case orb.Ring:
-		return gsn(clip.Ring(c20Box, v))
-	case orb.Polygon:
-		return gsn(clip.Polygon(c20Box, v))
-	case orb.MultiPolygon:
-		return gsn(clip.MultiPolygon(c20Box, v))
-	case orb.Collection:
-		return gsn(clip.Collection(c20Box, v))
-	case orb.Bound:
-		return gsn(clip.Bound(c20Box, v))
+func clipTypedB(box orb.Bound) func(g orb.Geometry) string {
+	return func(g orb.Geometry) string {
+		switch v := g.(type) {
+		case orb.Point:
+			return gsn(v) // no function of its own: kept iff the pre-test passes
+		case orb.MultiPoint:
+			return gsn(clip.MultiPoint(box, v))
+		case orb.LineString:
+			return gsn(clip.LineString(box, v))
+		case orb.MultiLineString:
+			return gsn(clip.MultiLineString(box, v))
+		case orb.Ring:
+			return gsn(clip.Ring(box, v))
+		case orb.Polygon:
+			return gsn(clip.Polygon(box, v))
+		case orb.MultiPolygon:
+			return gsn(clip.MultiPolygon(box, v))
+		case orb.Collection:
+			return gsn(clip.Collection(box, v))
+		case orb.Bound:
+			return gsn(clip.Bound(box, v))
+		}
+		return "-"
 	}
-	return "-"
 }
+
+var clipTyped = clipTypedB(c20Box)
 
 func wkbMarshal(g orb.Geometry) string  { return bytesOut(wkb.Marshal(g)) }
 func ewkbMarshal(g orb.Geometry) string { return bytesOut(ewkb.Marshal(g, 4326)) }
@@ -257,37 +259,23 @@ var c20Entries = []entry{
 		}
 		return us(sbound(g.Bound()))
 	}},
-	{name: "round", combine: "map", call: func(g orb.Geometry) string { return gsn(orb.Round(g, 10)) }},
+	roundEntry("round", []int{10}),
 	{name: "planar.area", readOnly: true, combine: "sum", call: func(g orb.Geometry) string { return fb(planar.Area(g)) }},
 	{name: "planar.centroid", readOnly: true, combine: "centroid", call: func(g orb.Geometry) string {
 		c, a := planar.CentroidArea(g)
 		return fb(c[0]) + "_" + fb(c[1]) + "_" + fb(a)
 	}},
 	{name: "planar.length", readOnly: true, combine: "sum", call: func(g orb.Geometry) string { return fb(planar.Length(g)) }},
-	{name: "planar.distfrom", readOnly: true, combine: "min", call: func(g orb.Geometry) string { return fb(planar.DistanceFrom(g, c20Pt)) }},
-	{name: "planar.distfromidx", readOnly: true, combine: "minidx", call: func(g orb.Geometry) string {
-		d, i := planar.DistanceFromWithIndex(g, c20Pt)
-		return fb(d) + "_" + fmt.Sprint(i)
-	}},
+	distEntry("planar.distfrom", c20Pt),
+	distIdxEntry("planar.distfromidx", c20Pt),
 	{name: "geo.area", readOnly: true, combine: "sum", call: func(g orb.Geometry) string { return fb(geo.Area(g)) }},
 	{name: "geo.length", readOnly: true, combine: "sum", call: func(g orb.Geometry) string { return fb(geo.Length(g)) }},
 	{name: "geo.lengthhav", readOnly: true, combine: "sum", call: func(g orb.Geometry) string { return fb(geo.LengthHaversine(g)) }},
 	// the deprecated, misspelt twin: must return exactly what LengthHaversine returns
 	{name: "geo.lengthhaversign", readOnly: true, combine: "sum", call: func(g orb.Geometry) string { return fb(geo.LengthHaversign(g)) },
 		typed: func(g orb.Geometry) string { return fb(geo.LengthHaversine(g)) }},
-	{name: "clip", combine: "clip", call: func(g orb.Geometry) string { return gsn(clip.Geometry(c20Box, g)) }, typed: clipTyped},
-	{name: "smartclip", combine: "smartclip", call: func(g orb.Geometry) string { return gsn(smartclip.Geometry(c20Box, g, orb.CCW)) },
-		typed: func(g orb.Geometry) string {
-			switch v := g.(type) {
-			case orb.Ring:
-				return gsn(smartclip.Ring(c20Box, v, orb.CCW))
-			case orb.Polygon:
-				return gsn(smartclip.Polygon(c20Box, v, orb.CCW))
-			case orb.MultiPolygon:
-				return gsn(smartclip.MultiPolygon(c20Box, v, orb.CCW))
-			}
-			return clipTyped(g) // every other kind is handed to plain clipping
-		}},
+	clipEntry("clip", c20Box),
+	smartEntry("smartclip", c20Box, orb.CCW),
 	// boxes the totality theorems of the models do NOT cover (`BoxOK`: positive size): a point, a flat
 	// and an inverted box.  Judged for totality only.
 	{name: "clip.degbox", combine: "", call: func(g orb.Geometry) string {
@@ -306,57 +294,11 @@ var c20Entries = []entry{
 		}
 		return strings.Join(out, ";")
 	}},
-	{name: "project", combine: "map", call: func(g orb.Geometry) string { return gsn(project.Geometry(g, shift)) },
-		typed: func(g orb.Geometry) string {
-			switch v := g.(type) {
-			case orb.Point:
-				return gsn(project.Point(v, shift))
-			case orb.MultiPoint:
-				return gsn(project.MultiPoint(v, shift))
-			case orb.LineString:
-				return gsn(project.LineString(v, shift))
-			case orb.MultiLineString:
-				return gsn(project.MultiLineString(v, shift))
-			case orb.Ring:
-				return gsn(project.Ring(v, shift))
-			case orb.Polygon:
-				return gsn(project.Polygon(v, shift))
-			case orb.MultiPolygon:
-				return gsn(project.MultiPolygon(v, shift))
-			case orb.Collection:
-				return gsn(project.Collection(v, shift))
-			case orb.Bound:
-				return gsn(project.Bound(v, shift))
-			}
-			return "-"
-		}},
+	projEntry("project", shift),
 	simpEntry("simplify.dp", func() orb.Simplifier { return simplify.DouglasPeucker(0.5) }),
 	simpEntry("simplify.radial", func() orb.Simplifier { return simplify.Radial(planar.Distance, 0.5) }),
 	simpEntry("simplify.vis", func() orb.Simplifier { return simplify.VisvalingamThreshold(0.5) }),
-	{name: "tilecover", readOnly: true, combine: "union", call: func(g orb.Geometry) string { return sset(tilecover.Geometry(g, 6)) },
-		typed: func(g orb.Geometry) string {
-			switch v := g.(type) {
-			case orb.Point:
-				return sset(tilecover.Point(v, 6), nil)
-			case orb.MultiPoint:
-				return sset(tilecover.MultiPoint(v, 6), nil)
-			case orb.LineString:
-				return sset(tilecover.LineString(v, 6), nil)
-			case orb.MultiLineString:
-				return sset(tilecover.MultiLineString(v, 6), nil)
-			case orb.Ring:
-				return sset(tilecover.Ring(v, 6))
-			case orb.Polygon:
-				return sset(tilecover.Polygon(v, 6))
-			case orb.MultiPolygon:
-				return sset(tilecover.MultiPolygon(v, 6))
-			case orb.Collection:
-				return sset(tilecover.Collection(v, 6))
-			case orb.Bound:
-				return sset(tilecover.Bound(v, 6), nil)
-			}
-			return "-"
-		}},
+	coverEntry("tilecover", 6),
 	encEntry("wkb", "wkb", true, wkbMarshal),
 	encEntry("ewkb", "ewkb", true, ewkbMarshal),
 	encEntry("wkt", "wkt", false, wktMarshal),
@@ -446,6 +388,7 @@ func emptyOfKind(g orb.Geometry) orb.Geometry {
 // runC20:
 //
 //	call <entry> <gval>       => generic | typed | unchanged | k member-outcomes…
+//	callp <entry> <params> <gval> => the same, with non-default parameter values (c20p.go)
 //	eq <gval1> <gval2>        => Equal(g1,g2) Equal(g2,g1) typed unchanged
 func runC20(op string, in []string) string {
 	switch op {
@@ -453,6 +396,8 @@ func runC20(op string, in []string) string {
 		return runC20Call(in)
 	case "eq":
 		return runC20Eq(in)
+	case "callp":
+		return runC20CallP(in)
 	}
 	return "badop"
 }
@@ -462,7 +407,26 @@ func runC20Call(in []string) string {
 	if e == nil {
 		return "badentry"
 	}
-	parse := func() orb.Geometry { g, _ := parseGeom(in[1:]); return g }
+	return runC20Entry(e, in[1:])
+}
+
+// runC20CallP: `callp <entry> <params> <gval>` — the entry point called with the parameter values of
+// the case line (orientation, box, threshold, factor, point function, zoom, byte order …).  ONE entry
+// value, closed over those parameters, produces the generic outcome, the kind-specific outcome and
+// every member's outcome.
+func runC20CallP(in []string) string {
+	if len(in) < 2 {
+		return "badentry"
+	}
+	e := c20ParamEntry(in[0], in[1])
+	if e == nil {
+		return "badentry"
+	}
+	return runC20Entry(e, in[2:])
+}
+
+func runC20Entry(e *entry, gtoks []string) string {
+	parse := func() orb.Geometry { g, _ := parseGeom(gtoks); return g }
 	g := parse()
 	before := gsN(g)
 	generic := guard(func() string { return e.call(g) })
@@ -728,6 +692,7 @@ func genC20(c *Ctx) {
 			c.Case("call", e.name+" "+gsN(orb.Clone(v)))
 		}
 	}
+	idx = genC20Params(c, idx)
 	// orb.Equal on PAIRS: every leaf against every leaf (cross-kind: all 9 x 9 kind pairs, nil
 	// interface and typed nils on either side), against its look-alikes of another kind, against
 	// one-place perturbations of itself, and the same inside collections
@@ -797,6 +762,7 @@ func genC20(c *Ctx) {
 		g := genGeom(c.Rng, opts(), 0)
 		c.Case("call", e.name+" "+gsN(g))
 	}
+	genC20ParamsRandom(c, opts)
 }
 
 func isTypedNil(g orb.Geometry) bool {
